@@ -7,6 +7,7 @@ import (
 	"hash/fnv"
 	"os"
 	"runtime/debug"
+	"runtime/pprof"
 	"sort"
 	"strconv"
 	"strings"
@@ -155,7 +156,13 @@ func Main(args []string) int {
 	maxExec := fs.Int64("maxexec", 0, "")
 	nocache := fs.Bool("nocache", false, "")
 	verbose := fs.Bool("v", false, "")
+	cpuprof := fs.String("cpuprofile", "", "")
 	_ = fs.Parse(args[1:])
+	if *cpuprof != "" {
+		f, _ := os.Create(*cpuprof)
+		_ = pprof.StartCPUProfile(f)
+		defer pprof.StopCPUProfile()
+	}
 	switch args[0] {
 	case "list":
 		type hl struct {
